@@ -26,7 +26,7 @@ def add(run, tier):
     # length, the single-walk rules for every kind of value -- what carries the per-production runs (lists of length 0..3) to all lists
     import contracts.ruletypes as crt
     rm = importlib.import_module('calmjs.parse.ruletypes')
-    verify_functions(run, crt.build(rm), {}, {}, tier=tier)
+    verify_functions(run, crt.build(rm) + crt.build_declare(rm), {}, {}, tier=tier)
     rule_constants(run, rm, um)
 
 
